@@ -7,7 +7,7 @@
 EXTENDS NormDefs
 CONSTANT MaxLen
 VARIABLE s
-Alphabet == {65, 97, 778, 803, 769, 197, 8491, 7842, 2392, 4352, 4449, 4520, 44032, 224}
+Alphabet == {65, 97, 778, 803, 769, 197, 8491, 7842, 2392, 4352, 4449, 4520, 4519, 44032, 224}   \* 4519 = U+11A7 (TBase: not a trailing consonant)
 RECURSIVE Strs(_)
 Strs(k) == IF k = 0 THEN {<<>>} ELSE LET S == Strs(k - 1) IN S \cup {Append(x, c) : x \in {t \in S : Len(t) = k - 1}, c \in Alphabet}
 Init == s \in Strs(MaxLen)
